@@ -2,5 +2,5 @@
 # runs every check's thorough tier once, sequentially (used with `vp run` from a snapshot)
 cd "$(dirname "$0")"
 for i in $(seq -w 1 20); do
-  /usr/bin/time -f "C$i wall=%es" ./run.sh C$i thorough 2>&1 | tail -4 | cut -c1-600
+  /usr/bin/time -f "C$i wall=%es" ./run.sh C$i thorough 2>&1 | grep -v "^\[worker" | grep "VIOLATION\|class:\|smallest\|^C$i\|KNOWN\|HARNESS\|ORACLE\|wall=" | cut -c1-400
 done
